@@ -36,9 +36,8 @@ Definition is_scalar (c : N) : bool := (c <? 55296) || ((57343 <? c) && (c <? 11
 Definition read_str (bs : list N) : res (option (list N * list N)) :=
   if (length bs <? 4)%nat then Ok None else
   let* '(l4, r) := take 4 bs in
-  let size := N.to_nat (unle l4) in
-  if (length bs - 4 <? size)%nat then Ok None else
-  let* '(s, r') := take size r in Ok (Some (s, r')).
+  if N.of_nat (length bs - 4) <? unle l4 then Ok None else                 (* `data.len() - 4 < size` *)
+  let* '(s, r') := take (N.to_nat (unle l4)) r in Ok (Some (s, r')).
 
 Inductive cstep := CEnd (rest : list N) | CSkip (rest : list N) | CCell (rest : list N).
 
@@ -106,12 +105,11 @@ Definition dec_layer (bs : list N) : res lsum :=
     let w := as_i32 (unle w4) in let h := as_i32 (unle h4) in
     let* '(_, r) := take 2 r in                                    (* default font page *)
     let* '(l8, r) := take 8 r in
-    let len := N.to_nat (unle l8) in
     if unle role =? 1 then
       if (length r <? 16)%nat then Err 1 else
       let* '(_, r) := take 16 r in Ok (mkL 1 w h 0)
     else
-      if (length r <? len)%nat then Err 2 else
+      if N.of_nat (length r) <? unle l8 then Err 2 else                    (* `bytes.len() - o < length` *)
       let* lc := dec_rows (Z.to_nat h) (Z.to_nat w) 0 0 r in
       Ok (mkL 0 w h lc)
   end.
